@@ -30,6 +30,7 @@ type PropCfg struct {
 	Mutants     []string `json:"mutants"`
 	SharedFlow  []string `json:"sharedflow"`
 	LockFlow    []string `json:"lockflow"` // package path suffixes for the guarded-by dataflow analysis
+	NoClosure   bool     `json:"no_closure"` // do not verify the contracts the listed functions rely on
 }
 
 type Finding struct {
@@ -163,6 +164,47 @@ func cmdProp(args []string) {
 		for i, e := range u.errs {
 			fmt.Fprintf(os.Stderr, "SUBSET %s: %s\n", key, e)
 			fail(fmt.Sprintf("%s#subset%d", key, i+1), map[string]any{"error": "function left the verifiable subset: " + e}, true)
+		}
+	}
+	// Closure over the contracts that the listed functions rely on: a callee or lemma whose
+	// contract was assumed at a call site is verified in the same check (unless trusted /
+	// extern), so that a callee that stops meeting its contract is noticed by every property
+	// that depends on it, not only by the one that lists it.
+	if !cfg.NoClosure {
+		have := map[string]bool{}
+		for _, u := range units {
+			have[u.unitName()] = true
+		}
+		for round := 0; round < 6; round++ {
+			var add []string
+			for _, u := range units {
+				for k := range u.em.usedSpecs {
+					if !have[k] {
+						have[k] = true
+						add = append(add, k)
+					}
+				}
+			}
+			if len(add) == 0 {
+				break
+			}
+			sort.Strings(add)
+			for _, key := range add {
+				f := ctx.findFunc(key)
+				if f == nil || f.Blocks == nil {
+					continue
+				}
+				con := ctx.contractFor(f)
+				if con == nil || con.Trusted || con.Inline {
+					continue
+				}
+				u := ctx.buildVC(f, con)
+				units = append(units, u)
+				for i, e := range u.errs {
+					fmt.Fprintf(os.Stderr, "SUBSET %s: %s\n", key, e)
+					fail(fmt.Sprintf("%s#subset%d", key, i+1), map[string]any{"error": "function left the verifiable subset: " + e}, true)
+				}
+			}
 		}
 	}
 	if len(cfg.LockFlow) > 0 {
@@ -348,6 +390,10 @@ func stableName(n string) string {
 		return n
 	}
 	switch parts[1] {
+	case "guarded-read", "guarded-write", "owner-call", "shared-write", "startup-call", "unguarded":
+		// flow-analysis obligations exist per access site; moving an access into another
+		// function is harmless: what must not disappear is the check of that field / kind
+		return "*#" + parts[1] + "#" + reOrdinal.ReplaceAllString(parts[2], "")
 	case "index", "nil", "slice", "divzero", "makeslice", "typeassert", "nilmap", "arith", "wrap", "panic", "copy-write", "errwrap":
 		return parts[0] + "#" + parts[1]
 	}
